@@ -6,7 +6,9 @@
 //   - Dump prints a *bondmachine.Bondmachine in the canonical text the Lean oracles read:
 //
 //     M rsize=<Rsize> inputs=<Inputs> outputs=<Outputs> ncp=<len(Domains)> procs=<Processors,..>
-//     C <i> rsize= r= n= m= l= o= mode= ws= ops=<names,..> shared=<0|1>
+//     C <i> rsize= r= n= m= l= o= mode= ws= ops=<names,..> shared=<0|1> mw=<Max_word()> sc=<Shared_constraints, ';' separated | ->
+//     SO <shared object> ...           Shared_objects (String() of each), only when there are any
+//     SL [<so id>,..] ...              Shared_links, one bracket per processor
 //     W <i> <rom word>                 one per Program.Slocs entry, in order
 //     D <i> <data word>                one per Data.Vars entry
 //     II <kind>.<res>.<ext> ...        Internal_inputs   (or "II -")
@@ -172,14 +174,40 @@ func Dump(bm *bondmachine.Bondmachine) []string {
 		if d.Shared_constraints != "" || len(bm.Shared_objects) > 0 {
 			shared = 1
 		}
-		res = append(res, fmt.Sprintf("C %d rsize=%d r=%d n=%d m=%d l=%d o=%d mode=%s ws=%d ops=%s shared=%d", i, d.Rsize, d.R, d.N,
-			d.M, d.L, d.O, mode, d.WordSize, strings.Join(ops, ","), shared))
+		sc := "-"
+		if d.Shared_constraints != "" {
+			sc = strings.ReplaceAll(d.Shared_constraints, ",", ";")
+		}
+		res = append(res, fmt.Sprintf("C %d rsize=%d r=%d n=%d m=%d l=%d o=%d mode=%s ws=%d ops=%s shared=%d mw=%d sc=%s", i, d.Rsize, d.R, d.N,
+			d.M, d.L, d.O, mode, d.WordSize, strings.Join(ops, ","), shared, d.Max_word(), sc))
 		for _, w := range d.Program.Slocs {
 			res = append(res, fmt.Sprintf("W %d %s", i, w))
 		}
 		for _, w := range d.Data.Vars {
 			res = append(res, fmt.Sprintf("D %d %s", i, w))
 		}
+	}
+	sos := make([]string, len(bm.Shared_objects))
+	for i, so := range bm.Shared_objects {
+		sos[i] = so.String()
+	}
+	if len(sos) > 0 || len(bm.Shared_links) > 0 {
+		if len(sos) == 0 {
+			sos = []string{"-"}
+		}
+		res = append(res, "SO "+strings.Join(sos, " "))
+		sl := make([]string, len(bm.Shared_links))
+		for i, l := range bm.Shared_links {
+			x := make([]string, len(l))
+			for j, v := range l {
+				x[j] = fmt.Sprint(v)
+			}
+			sl[i] = "[" + strings.Join(x, ",") + "]"
+		}
+		if len(sl) == 0 {
+			sl = []string{"-"}
+		}
+		res = append(res, "SL "+strings.Join(sl, " "))
 	}
 	res = append(res, "II "+bonds(bm.Internal_inputs))
 	res = append(res, "IO "+bonds(bm.Internal_outputs))
